@@ -50,7 +50,8 @@ Inductive input :=
 | IDeliver (m : mid) (d : decision) (n : nat)
 | IFire (t : tid) (d : decision) (n : nat)
 | IWorker (corr : mid) (ok : bool)                    (* a worker answers a request *)
-| IReply (corr : mid) (d : decision) (n : nat).
+| IReply (corr : mid) (d : decision) (n : nat)
+| IExpire (t : tid).                                  (* the execution deadline cuts a pending task: never retried or caught, no task history *)
 
 Fixpoint remove_event (m : mid) (l : list event) : list event :=
   match l with
@@ -243,6 +244,13 @@ Definition step (kind_of : sname -> skind) (start_at : sname) (w : world) (i : i
                      else None
               end
           end
+      end
+  | IExpire t =>
+      match find_by_timer t (held w) with
+      | Some (e, PPending _) =>
+          let s := state_of start_at e in
+          Some (finished w e s DFailed 0 [], finish_effects 0 e s DFailed ++ [Ack (e_id e)])
+      | _ => None
       end
   | IWorker corr ok =>
       if existsb (Nat.eqb corr) (requests w)
